@@ -257,6 +257,16 @@ func (set *TemplateSet) fromFileRelative(tpl *Template, filename string) (*Templ
 	}
 }
 
+// isMissing reports whether err says that the template tpl refers to as filename could itself
+// not be loaded - as opposed to an error raised while compiling it, for instance because a
+// template that it refers to in turn is missing.
+func (set *TemplateSet) isMissing(err *Error, tpl *Template, filename string) bool {
+	if tpl != nil && tpl.isTplString {
+		tpl = nil
+	}
+	return err.Sender == "fromfile" && err.Filename == set.resolveFilename(tpl, filename)
+}
+
 // RenderTemplateString is a shortcut and renders a template string directly.
 func (set *TemplateSet) RenderTemplateString(s string, ctx Context) (string, error) {
 	atomic.StoreUint32(&set.firstTemplateCreated, 1)
